@@ -267,7 +267,7 @@ func newExec(t *testing.T) func([]string) string {
 			sigrel := "othersig"
 			if string(f0.Signature) == string(f1.Signature) {
 				sigrel = "sigsame"
-			} else if tw, err := p256.Swap(f0.Signature); err == nil && string(tw) == string(f1.Signature) {
+			} else if tw, err := cl.SwapSig(f0.Signature); err == nil && string(tw) == string(f1.Signature) {
 				sigrel = "twin"
 			}
 			f0.Signature, f1.Signature = nil, nil
@@ -316,7 +316,7 @@ func newExec(t *testing.T) func([]string) string {
 			if ok, err := p256.IsNormalized(sig); err == nil {
 				n = hlib.B(ok)
 			}
-			return fmt.Sprintf("%s %s %s", n, optHex(p256.Normalize(sig)), optHex(p256.Swap(sig)))
+			return fmt.Sprintf("%s %s %s", n, optHex(p256.Normalize(sig)), optHex(cl.SwapSig(sig)))
 		}
 		return "bad-op"
 	}
@@ -518,7 +518,7 @@ func genTamper(r *hlib.Rand, n int, emit func(string, ...any)) {
 			emit("copy %d %s", ver, hlib.Hex(raw))
 			i++
 			// the original's other signature form while the original is blocklisted, and the original itself
-			if tw, err := p256.Swap(c0.Signature()); err == nil && curve == cert.Curve_P256 {
+			if tw, err := cl.SwapSig(c0.Signature()); err == nil && curve == cert.Curve_P256 {
 				twraw := cl.Craft(cl.FieldsOf(c0), nil, tw)
 				if tc, err := decodeStd(ver, twraw); err == nil {
 					emit("tamper %d std %s %s %d %s %s %s 1", ver, hlib.Hex(raw), hlib.Hex(twraw), caver, hlib.Hex(caraw), now, hlib.B(tc.CheckSignature(ca.PublicKey())))
@@ -537,7 +537,7 @@ func genTamper(r *hlib.Rand, n int, emit func(string, ...any)) {
 				case 0:
 					alt = base // unaltered
 				case 1: // the other signature form (P-256) / a bit flip inside the signature (25519)
-					if tw, err := p256.Swap(c0.Signature()); err == nil && curve == cert.Curve_P256 {
+					if tw, err := cl.SwapSig(c0.Signature()); err == nil && curve == cert.Curve_P256 {
 						alt = cl.Craft(cl.FieldsOf(c0), nil, tw)
 						form = "std"
 					} else {
@@ -683,34 +683,9 @@ func gen(r *hlib.Rand, n int, tier, profile string, emit func(string, ...any)) {
 			emit("norm %s", hlib.Hex(mutate(r, sig)))
 		}
 	}
-	// p256 boundary scalars
-	nBytes := []byte{0xff, 0xff, 0xff, 0xff, 0, 0, 0, 0, 0xff, 0xff, 0xff, 0xff, 0xff, 0xff, 0xff, 0xff, 0xbc, 0xe6, 0xfa, 0xad, 0xa7, 0x17, 0x9e, 0x84, 0xf3, 0xb9, 0xca, 0xc2, 0xfc, 0x63, 0x25, 0x51}
-	half := []byte{0x7f, 0xff, 0xff, 0xff, 0x80, 0, 0, 0, 0x7f, 0xff, 0xff, 0xff, 0xff, 0xff, 0xff, 0xff, 0xde, 0x73, 0x7d, 0x56, 0xd3, 0x8b, 0xcf, 0x42, 0x79, 0xdc, 0xe5, 0x61, 0x7e, 0x31, 0x92, 0xa8}
-	der := func(r0, s0 []byte) []byte {
-		enc := func(x []byte) []byte {
-			for len(x) > 1 && x[0] == 0 {
-				x = x[1:]
-			}
-			if x[0]&0x80 != 0 {
-				x = append([]byte{0}, x...)
-			}
-			return append([]byte{2, byte(len(x))}, x...)
-		}
-		body := append(enc(r0), enc(s0)...)
-		return append([]byte{0x30, byte(len(body))}, body...)
-	}
-	add := func(x []byte, d int) []byte {
-		y := append([]byte{}, x...)
-		for i := len(y) - 1; i >= 0 && d != 0; i-- {
-			v := int(y[i]) + d
-			y[i] = byte(v & 0xff)
-			d = v >> 8
-		}
-		return y
-	}
-	for _, s0 := range [][]byte{{0}, {1}, {0x7f}, {0x80}, half, add(half, 1), add(half, -1), nBytes, add(nBytes, -1), add(nBytes, 1), add(nBytes, -2)} {
-		emit("norm %s", hlib.Hex(der([]byte{5}, s0)))
-		emit("norm %s", hlib.Hex(der(s0, []byte{5})))
+	// p256 boundary scalars (as S and as R)
+	for _, sig := range cl.BoundarySigs(r) {
+		emit("norm %s", hlib.Hex(sig))
 	}
 }
 
